@@ -261,6 +261,14 @@ func (b *bucket) rmVersion(name string, versionID gofakes3.VersionID, at time.Ti
 		result.IsDeleteMarker = object.data.deleteMarker
 		object.data = nil
 
+		// The most recent of the remaining versions becomes the current one:
+		if object.versions != nil && object.versions.Len() > 0 {
+			last := object.versions.SeekToLast()
+			object.data = last.Value().(*bucketData)
+			object.versions.Delete(last.Key())
+			last.Close()
+		}
+
 	} else if object.versions != nil {
 		versionIface, ok := object.versions.Delete(versionID)
 		if !ok {
